@@ -256,6 +256,27 @@ Definition calculate_order {A} (calc : system -> option A) (vel_rev : bool)
            (xyz vel : list v3) (box : option (list Z)) : option A :=
   calc (Sys xyz (if vel_rev then map vneg vel else vel) box).
 
+(* The two routes of calculate_order(system, xyz=None, vel=None, box=None):
+     if any((xyz is None, vel is None, box is None)):
+         out = self._read_configuration(system.config[0]); xyz, vel, box = out[0], out[1], out[2]
+     if xyz is not None: system.pos = xyz
+     if vel is not None: system.vel = vel * -1.0 if system.vel_rev else vel
+     if box is not None: system.box = box
+     return self.order_function.calculate(system)
+   [conf] is what the engine's _read_configuration returns for the file the phase point
+   references (an explicit input; readers return arrays for positions and velocities and
+   None for a missing box), [box0] is what system.box holds before the call (kept when the
+   file has no box).  As soon as one override is missing ALL three are taken from the file. *)
+Definition calculate_order_args {A} (calc : system -> option A) (vel_rev : bool)
+           (conf : system) (box0 : option (list Z))
+           (xyz vel : option (list v3)) (box : option (list Z)) : option A :=
+  match xyz, vel, box with
+  | Some x, Some v, Some b => calculate_order calc vel_rev x v (Some b)
+  | _, _, _ =>
+    calc (Sys (spos conf) (if vel_rev then map vneg (svel conf) else svel conf)
+              (match sbox conf with Some b => Some b | None => box0 end))
+  end.
+
 (* ------------------------------------------------------------------ Path.reverse
    A frame holds an order value, the vel_rev flag and what System.pos/vel/box hold
    (None models pos = vel = None, which is what snapshot_to_system stores).
